@@ -24,8 +24,9 @@ import (
 
 // Extractor produces the body of one generated Lean module.
 type Extractor struct {
-	Module string // e.g. "FactsC09" -> EgVerif/Gen/FactsC09.lean, namespace EgVerif.Gen.FactsC09
-	Run    func(r *Repo, w *Lean) error
+	Module  string   // e.g. "FactsC09" -> EgVerif/Gen/FactsC09.lean, namespace EgVerif.Gen.FactsC09
+	Imports []string // Lean modules the generated file imports (core-only models), optional
+	Run     func(r *Repo, w *Lean) error
 }
 
 var extractors []Extractor
@@ -224,6 +225,9 @@ func main() {
 		r := &Repo{Root: *repo, Fset: token.NewFileSet(), cache: map[string]*ast.File{}}
 		w := &Lean{}
 		w.Line("/- GENERATED by /verif/harness/factextract from /repo's working tree. Do not edit. -/")
+		for _, im := range e.Imports {
+			w.Line("import %s", im)
+		}
 		w.Line("namespace EgVerif.Gen.%s", e.Module)
 		w.Line("")
 		if err := e.Run(r, w); err != nil {
@@ -232,6 +236,9 @@ func main() {
 			fmt.Fprintf(os.Stderr, "factextract: %s: %v\n", e.Module, err)
 			w = &Lean{}
 			w.Line("/- GENERATED: extraction FAILED: %s -/", strings.ReplaceAll(err.Error(), "-/", "- /"))
+			for _, im := range e.Imports {
+				w.Line("import %s", im)
+			}
 			w.Line("namespace EgVerif.Gen.%s", e.Module)
 			w.Line("def extractionFailed : Bool := true")
 			failed = true
